@@ -38,6 +38,7 @@ logging.disable(logging.CRITICAL)
 
 CUR = contextvars.ContextVar('party', default=-1)
 RTS = {}
+_LAST_CFG = None
 
 
 class _Proxy:
@@ -347,6 +348,14 @@ class SimNet:
         self.crash_sent = 0
         self.outlog = [[] for _ in range(m)]   # programs may append completed outputs here (crash checks)
         SECRETS.reseed(seed, m)
+        # secure types are cached per process but depend on the configuration they were created under
+        # (field lifting depends on m and t, field sizes on sec_param): start every configuration afresh
+        cfgkey = (m, self.t, sec_param, bit_length)
+        global _LAST_CFG
+        if _LAST_CFG != cfgkey:
+            _LAST_CFG = cfgkey
+            for fn in (sectypes._SecFld, sectypes._SecInt, sectypes._SecFxp, sectypes._SecFlt, secgroups.SecGrp):
+                fn.cache_clear()
         _install_proxy()
         RTS.clear()
         self.loop = SimLoop(self)
